@@ -330,7 +330,7 @@ def auths_templates():
     return T
 
 
-EXT_NAMES = [b"server-sig-algs", b"server-sig-algs", b"no-flow-control", b"x\xff", b""]
+EXT_NAMES = [b"server-sig-algs", b"server-sig-algs", b"server-sig-algs", b"server-sig-algs", b"no-flow-control", b"x\xff", b""]
 EXT_VALUES = [b"rsa-sha2-512,rsa-sha2-256,ssh-rsa", b"ssh-ed25519", b"rsa-sha2-512", b"p"]
 
 
@@ -794,10 +794,14 @@ def run(ctx):
         "pre": pre_case(),
         "post": st.tuples(st.sampled_from(["client", "server"]), _msgs_from(post_c, 3), st.booleans()),
         "authc": st.tuples(
-            st.sampled_from(["none", "password", "publickey", "publickey-rsa", "publickey-rsa", "interactive"]),
+            st.sampled_from(["none", "password", "publickey", "publickey-rsa", "publickey-rsa", "publickey-rsa", "interactive"]),
             _msgs_from(authc_t, 2),
             st.booleans(),
-            st.lists(st.tuples(st.sampled_from(EXT_NAMES), st.one_of(st.sampled_from(BADSTR), st.sampled_from(EXT_VALUES)), st.integers(0, 3)), max_size=2),
+            st.one_of(
+                st.just([]),
+                st.lists(st.tuples(st.sampled_from(EXT_NAMES), st.one_of(st.sampled_from(BADSTR), st.sampled_from(EXT_VALUES)), st.integers(0, 3)), min_size=1, max_size=2),
+                st.lists(st.tuples(st.sampled_from(EXT_NAMES), st.sampled_from([b"\xff", b"\xff\xfe\xfd", b"rsa-sha2-512,\xc3\x28", b"\xed\xa0\x80"]), st.integers(0, 1)), min_size=1, max_size=1),
+            ),
             st.booleans(),
         ),
         "auths": st.tuples(st.sampled_from([0, 1, 2]), _msgs_from(auths_t, 3), st.booleans()),
